@@ -4,11 +4,12 @@ import SqlizeModel.Driver.Pair
 import SqlizeModel.Driver.Script
 import SqlizeModel.Driver.Hash
 import SqlizeModel.Driver.Calls
+import SqlizeModel.Driver.Version
 
 open Sqlize Sqlize.Driver
 
 def handlers : List (String × Handler) :=
-  [("snake", snakeHandler), ("pair", pairHandler), ("script", scriptHandler), ("hash", hashHandler), ("calls", callsHandler)]
+  [("snake", snakeHandler), ("pair", pairHandler), ("script", scriptHandler), ("hash", hashHandler), ("calls", callsHandler), ("version", versionHandler), ("versionexcl", versionExclHandler)]
 
 def handleLine (line : String) : String :=
   match SExp.parse line with
